@@ -28,7 +28,9 @@ def check(rep, tier, seed):
     specs, metas = [], []
     # fixed managed encodes (average only / average + generous maximum, noise and tones, no control settings): every run
     # exercises the packet selection of the bitrate manager on enough packets, whatever the seed
-    FIXED = [(1, 22050, -1, 32000, -1, 1), (2, 44100, -1, 128000, -1, 1), (6, 48000, -1, 256000, -1, 2), (2, 44100, 256000, 96000, -1, 1)]
+    FIXED = [(1, 22050, -1, 32000, -1, 1), (2, 44100, -1, 128000, -1, 1), (6, 48000, -1, 256000, -1, 2), (2, 44100, 256000, 96000, -1, 1),
+             # a hard MINIMUM only, on seconds of full-scale noise (the reservoir has to fill): no maximum is configured, so no packet may be cut short
+             (2, 44100, -1, 128000, 32000, 1)]
     # fixed lowest-quality encodes of loud input (square wave, noise 8x beyond full scale, full-scale noise): the sparsest residue
     # books, where the quantised vector most often lands on an unused entry and the encoder has to pick a neighbour
     FIXEDQ = [(2, 8000, -0.1, 7, 60000), (2, 8000, -0.1, 6, 60000), (6, 22050, -0.1, 6, 40000), (1, 44100, -0.1, 7, 60000), (6, 44100, 0.3, 6, 40000),
@@ -36,7 +38,7 @@ def check(rep, tier, seed):
     for k in range(nenc):
         if k < len(FIXED):
             ch, rate, mx, nom, mn, sig = FIXED[k]
-            n = 20000
+            n = 20000 if mn < 0 else 170000
             specs.append("%d %d %d 1 %d %d %d %d %d %d %d" % (k, ch, rate, mx, nom, mn, n, sig, 12345 + k, 0))
             metas.append({"case": k, "ch": ch, "rate": rate, "managed": [mx, nom, mn], "samples": n, "signal": sig, "ctl": 0, "fixed": True})
             continue
@@ -56,12 +58,14 @@ def check(rep, tier, seed):
         managed = rng.below(3) == 0
         if managed:
             per = rng.choice([24000, 32000, 48000, 64000, 96000, 160000])
-            mode = rng.below(4)
+            mode = rng.below(5)
             nom = per * ch
             mx = -1 if mode == 0 else rng.choice([nom, nom * 2])
             mn = -1 if mode in (0, 1) else nom // 2
             if mode == 3:
                 mx = mn = nom
+            if mode == 4:
+                mx = -1              # a hard minimum only
             specs.append("%d %d %d 1 %d %d %d %d %d %d %d" % (k, ch, rate, mx, nom, mn, n, sig, rng.below(1 << 40), ctl))
             metas.append({"case": k, "ch": ch, "rate": rate, "managed": [mx, nom, mn], "samples": n, "signal": sig, "ctl": ctl})
         else:
@@ -111,7 +115,12 @@ def check(rep, tier, seed):
         info = next((l.split() for l in ei if l.startswith("einfo info")), None)
         esetup = next((l.split()[2:] for l in ei if l.startswith("einfo setup")), None)
         managed = info is not None and info[10] == "1"
-        hardmax = info is not None and int(info[12]) > 0
+        # a hard maximum is what the APPLICATION configured (the set-up call's max argument), not what the bitrate manager ended up
+        # holding: the two must agree, and a manager that enforces a maximum nobody asked for is cutting packets it may not cut
+        hardmax = bool(m.get("managed")) and int(m["managed"][0]) > 0
+        if info is not None and (int(info[12]) > 0) != hardmax and managed:
+            bad_prop.append({"kind": "the bitrate manager holds a hard maximum of %s although the application configured %s" % (info[12], m["managed"][0]),
+                             "case": k, "meta": m, "cases_file": res["files"][k]})
         dist["managed_encodes"] += managed
         cf_ = res["files"][k]
         hdrs = [l for l in li if l.startswith("hdr ")]
